@@ -138,7 +138,14 @@ func (g *genCtx) genExpr(typ string, depth int, label string) *Expr {
 				a := g.genExpr("string", depth-1, label+".a")
 				if a != nil {
 					g.label("op:concat")
-					return &Expr{K: "bin", Op: "+", Args: []*Expr{a, {K: "lit", Lit: g.genLit("string", label+".b")}}}
+					b := &Expr{K: "lit", Lit: g.genLit("string", label+".b")}
+					if rapid.IntRange(0, 9).Draw(g.t, label+".b.ref?") < 4 {
+						if x := g.genExpr("string", 0, label+".b.x"); x != nil {
+							g.label("op:two-references")
+							b = x
+						}
+					}
+					return &Expr{K: "bin", Op: "+", Args: []*Expr{a, b}}
 				}
 			case 3:
 				if a := g.genExpr("bool", depth-1, label+".a"); a != nil {
@@ -170,13 +177,27 @@ func (g *genCtx) genExpr(typ string, depth int, label string) *Expr {
 			if a := g.genIntNoPlugin(depth-1, label+".a"); a != nil {
 				op := rapid.SampledFrom([]string{"+", "-", "*"}).Draw(g.t, label+".op")
 				g.label("op:arith")
-				return &Expr{K: "bin", Op: op, Args: []*Expr{a, {K: "lit", Lit: IntLit(rapid.Int64Range(0, 9).Draw(g.t, label+".b"))}}}
+				b := &Expr{K: "lit", Lit: IntLit(rapid.Int64Range(0, 9).Draw(g.t, label+".b"))}
+				if rapid.IntRange(0, 9).Draw(g.t, label+".b.ref?") < 4 {
+					if x := g.genIntNoPlugin(0, label+".b.x"); x != nil {
+						g.label("op:two-references")
+						b = x
+					}
+				}
+				return &Expr{K: "bin", Op: op, Args: []*Expr{a, b}}
 			}
 		case "bool":
 			if a := g.genIntNoPlugin(depth-1, label+".a"); a != nil {
 				op := rapid.SampledFrom([]string{"<", ">", "==", "!="}).Draw(g.t, label+".op")
 				g.label("op:compare")
-				return &Expr{K: "bin", Op: op, Args: []*Expr{a, {K: "lit", Lit: IntLit(rapid.Int64Range(0, 20).Draw(g.t, label+".b"))}}}
+				b := &Expr{K: "lit", Lit: IntLit(rapid.Int64Range(0, 20).Draw(g.t, label+".b"))}
+				if rapid.IntRange(0, 9).Draw(g.t, label+".b.ref?") < 4 {
+					if x := g.genIntNoPlugin(0, label+".b.x"); x != nil {
+						g.label("op:two-references")
+						b = x
+					}
+				}
+				return &Expr{K: "bin", Op: op, Args: []*Expr{a, b}}
 			}
 		}
 	}
